@@ -743,6 +743,130 @@ func runHangup(r *rig, tag string, c *Case) {
 	r.idleResidue(c, base, false)
 }
 
+// runMassDrop: "mass disconnect during a status report". One connection stays live; all others
+// join a silent topic (nobody ever sends), then the hub is held busy the way a status report in
+// progress does (its lock is taken for half a second through the overlay accessor) and, while it is,
+// every TCP connection is dropped at once. All readers then want to unregister at the same time.
+func runMassDrop(r *rig, tag string, c *Case) {
+	for i := 0; i < 2; i++ {
+		runtime.GC()
+		time.Sleep(60 * time.Millisecond)
+	}
+	base := r.measure()
+	old := debug.SetGCPercent(-1)
+	defer debug.SetGCPercent(old)
+	now := time.Now().Unix()
+	conns := make([]*websocket.Conn, len(c.Conns))
+	bids := make([]string, len(c.Conns))
+	sem := make(chan struct{}, 24)
+	var wg sync.WaitGroup
+	for i := range c.Conns {
+		wg.Add(1)
+		sem <- struct{}{}
+		go func(i int) {
+			defer wg.Done()
+			defer func() { <-sem }()
+			k := &c.Conns[i]
+			topic := fmt.Sprintf("%s-t%d", tag, k.Topic)
+			bids[i] = fmt.Sprintf("%s-b%d", tag, i)
+			code := r.submit(r.aud, topic, bids[i], []string{"read", "write"}, now-5, now+3600)
+			ws, err := r.dial("/session/"+topic, code, false)
+			if err != nil {
+				k.Note = "dial failed: " + err.Error()
+				return
+			}
+			conns[i] = ws
+		}(i)
+	}
+	wg.Wait()
+	for w := 0; w < 300; w++ { // everybody registered?
+		n := 0
+		for i := range c.Conns {
+			if r.count(r.registered, bids[i]) > 0 {
+				n++
+			}
+		}
+		if n == len(c.Conns) {
+			break
+		}
+		time.Sleep(10 * time.Millisecond)
+	}
+	liveN := 0
+	for i := range c.Conns {
+		c.Conns[i].Accepted = r.count(r.registered, bids[i]) > 0
+		if c.Conns[i].Accepted && c.Conns[i].End == "" {
+			liveN++
+			go func(ws *websocket.Conn) {
+				for {
+					if _, _, err := ws.ReadMessage(); err != nil {
+						return
+					}
+				}
+			}(conns[i])
+		}
+	}
+	held := make(chan struct{})
+	go func() { crossbar.VerifHoldHub(r.hub, 500*time.Millisecond); close(held) }()
+	time.Sleep(20 * time.Millisecond)
+	var dw sync.WaitGroup
+	for i := range c.Conns {
+		if conns[i] != nil && c.Conns[i].End != "" {
+			dw.Add(1)
+			go func(ws *websocket.Conn) { defer dw.Done(); ws.UnderlyingConn().Close() }(conns[i])
+			c.Order = append(c.Order, i)
+		}
+	}
+	dw.Wait()
+	<-held
+	bound := time.Now().Add(settleBound)
+	t0 := time.Now()
+	var m measure
+	for {
+		m = r.measure()
+		if m.readers-base.readers == liveN && m.writers-base.writers == liveN && m.watchers-base.watchers == liveN &&
+			len(m.topics)-len(base.topics) == liveN && m.chans-base.chans == liveN {
+			break
+		}
+		if time.Now().After(bound) {
+			break
+		}
+		time.Sleep(20 * time.Millisecond)
+	}
+	c.SettleMs = int(time.Since(t0) / time.Millisecond)
+	c.Obs = Obs{Readers: m.readers - base.readers, Writers: m.writers - base.writers, Watchers: m.watchers - base.watchers, Chan: m.chans - base.chans}
+	baseT := map[string]int{}
+	for _, t := range base.topics {
+		baseT[t]++
+	}
+	for _, t := range m.topics {
+		if baseT[t] > 0 {
+			baseT[t]--
+			continue
+		}
+		n := 9999
+		if strings.HasPrefix(t, tag+"-t") {
+			n, _ = strconv.Atoi(strings.TrimPrefix(t, tag+"-t"))
+		}
+		c.Obs.Topics = append(c.Obs.Topics, n)
+	}
+	sort.Ints(c.Obs.Topics)
+	c.Obs.Socks = (m.socks - liveN) - base.socks
+	for i := range c.Conns {
+		if conns[i] != nil && c.Conns[i].End == "" {
+			conns[i].Close()
+		}
+	}
+	r.idleResidue(c, base, false)
+}
+
+func genMassDrop(n int) Case {
+	c := Case{Kind: fmt.Sprintf("massdrop-%d", n), Conns: []Conn{{Outcome: "join", Topic: 1, HasBid: true}}}
+	for i := 0; i < n; i++ {
+		c.Conns = append(c.Conns, Conn{Outcome: "join", Topic: 2, HasBid: true, End: "netloss"})
+	}
+	return c
+}
+
 func genHangup(rng *lib.Rng, n int) Case {
 	c := Case{Kind: fmt.Sprintf("hangup-%d", n)}
 	for t := 1; t <= 3; t++ {
@@ -852,6 +976,8 @@ func gen(rng *lib.Rng, tier string, a lib.Args) []Case {
 	}
 	// instant hang-ups while the hub is busy
 	cs = append(cs, genHangup(rng.Fork(), a.Pick(200, 300)))
+	// everybody leaves at once while a status report keeps the hub busy
+	cs = append(cs, genMassDrop(a.Pick(200, 300)))
 	if tier == "thorough" {
 		cs = append(cs, genHangup(rng.Fork(), 300), genHangup(rng.Fork(), 150))
 	}
@@ -922,13 +1048,14 @@ func oracle(c Case, idx int, res *lib.Result) {
 // ---------------------------------------------------------------- shutdown scenario (child process)
 
 type shutdownReport struct {
-	CPUBeforeMs  int            `json:"cpu_before_ms"` // CPU used in 1 s while serving, idle
-	CPUAfterMs   int            `json:"cpu_after_ms"`  // CPU used in the second that starts 1 s after close(closed)
-	PumpsLeft    int            `json:"pumps_left"`    // reader/writer/watcher goroutines still there
-	ClientsEnded int            `json:"clients_ended"` // of 3 live client sockets, how many the relay closed
-	Running      []string       `json:"running"`       // relay functions of goroutines found running/runnable
-	Left         map[string]int `json:"left"`          // relay goroutines left, by creation site
-	Err          string         `json:"err,omitempty"`
+	CPUBeforeMs  int             `json:"cpu_before_ms"` // CPU used in 1 s while serving, idle
+	CPUAfterMs   int             `json:"cpu_after_ms"`  // CPU used in the second that starts 1 s after close(closed)
+	PumpsLeft    int             `json:"pumps_left"`    // reader/writer/watcher goroutines still there
+	ClientsEnded int             `json:"clients_ended"` // of 3 live client sockets, how many the relay closed
+	PeersClosed  map[string]bool `json:"peers_closed"`  // never-reading feeder / stalled reader: did the relay close their sockets
+	Running      []string        `json:"running"`       // relay functions of goroutines found running/runnable
+	Left         map[string]int  `json:"left"`          // relay goroutines left, by creation site
+	Err          string          `json:"err,omitempty"`
 }
 
 func cpuMs() int {
@@ -960,6 +1087,50 @@ func shutdownChild() {
 				}
 			}
 		}(ws)
+	}
+	// two peers that will never answer anything: a write-only feeder that never reads (it feeds
+	// topic sd0 every 20 ms, through and past the shutdown), and a reader on sd1 that has stopped
+	// reading (a few small messages are sent its way; its writer is NOT blocked)
+	rep.PeersClosed = map[string]bool{}
+	var pmu sync.Mutex
+	dialPeer := func(topic, bid string) *websocket.Conn {
+		now := time.Now().Unix()
+		_, uri, _ := rl.Session(topic, lib.Sign(rl.Claims(topic, bid, []string{"read", "write"}, now-5, now-5, now+3600), rl.Secret))
+		d := websocket.Dialer{HandshakeTimeout: 3 * time.Second, NetDial: func(network, addr string) (net.Conn, error) {
+			c, err := net.DialTimeout(network, addr, 3*time.Second)
+			if err == nil {
+				c.(*net.TCPConn).SetReadBuffer(4096)
+			}
+			return c, err
+		}}
+		ws, _, err := d.Dial(uri, nil)
+		if err != nil {
+			rep.Err = "dial peer: " + err.Error()
+			return nil
+		}
+		return ws
+	}
+	feeder, stalled := dialPeer("sd0", "sd-feeder"), dialPeer("sd1", "sd-stalled")
+	if feeder != nil {
+		rep.PeersClosed["feeder-never-reading"] = false
+		go func() {
+			for k := 0; ; k++ {
+				feeder.SetWriteDeadline(time.Now().Add(500 * time.Millisecond))
+				if err := feeder.WriteMessage(websocket.BinaryMessage, []byte("F"+strconv.Itoa(k))); err != nil {
+					pmu.Lock()
+					rep.PeersClosed["feeder-never-reading"] = true // writing to a socket the relay closed fails
+					pmu.Unlock()
+					return
+				}
+				time.Sleep(20 * time.Millisecond)
+			}
+		}()
+	}
+	if stalled != nil && len(clients) > 1 {
+		rep.PeersClosed["stalled-reader"] = false
+		for k := 0; k < 5; k++ {
+			clients[1].WriteMessage(websocket.BinaryMessage, []byte("for the stalled reader"))
+		}
 	}
 	time.Sleep(300 * time.Millisecond)
 	c0 := cpuMs()
@@ -996,8 +1167,23 @@ loop:
 			break loop
 		}
 	}
+	if stalled != nil {
+		// data sent to a socket the relay has closed is answered with a reset: a later write fails
+		for n := 0; n < 6; n++ {
+			stalled.SetWriteDeadline(time.Now().Add(200 * time.Millisecond))
+			if err := stalled.WriteMessage(websocket.BinaryMessage, []byte("x")); err != nil {
+				pmu.Lock()
+				rep.PeersClosed["stalled-reader"] = true
+				pmu.Unlock()
+				break
+			}
+			time.Sleep(100 * time.Millisecond)
+		}
+	}
 	runtime.KeepAlive(clients)
+	pmu.Lock()
 	b, _ := json.Marshal(rep)
+	pmu.Unlock()
 	fmt.Println("SHUTDOWN-REPORT " + string(b))
 }
 
@@ -1076,7 +1262,9 @@ func main() {
 	watchdog := time.AfterFunc(25*time.Minute, func() { fmt.Fprintln(os.Stderr, "c13: watchdog"); os.Exit(3) })
 	defer watchdog.Stop()
 	for i := range cases {
-		if strings.HasPrefix(cases[i].Kind, "hangup") {
+		if strings.HasPrefix(cases[i].Kind, "massdrop") {
+			runMassDrop(r, fmt.Sprintf("s%dh%d", a.Seed, i), &cases[i])
+		} else if strings.HasPrefix(cases[i].Kind, "hangup") {
 			runHangup(r, fmt.Sprintf("s%dh%d", a.Seed, i), &cases[i])
 		} else {
 			runHistory(r, fmt.Sprintf("s%dh%d", a.Seed, i), &cases[i])
@@ -1126,10 +1314,16 @@ func main() {
 			res.Violate(lib.Violation{Clause: "shutdown-scenario", Case: -1, Key: "shutdown-scenario-failed", Detail: o.err.Error(), Replay: map[string]string{"scenario": "shutdown"}})
 		default:
 			res.Count("shutdown-scenario")
-			hist := map[string]interface{}{"history": "start relay.Relay; 3 live connections; close(closed); wait 1 s; sample 1 s", "observed": o.rep}
+			hist := map[string]interface{}{"history": "start relay.Relay; 3 live connections that read, a write-only feeder that never reads, a reader that stopped reading; close(closed); wait 1 s; sample 1 s", "observed": o.rep}
 			if o.rep.CPUAfterMs > 500 {
 				res.Violate(lib.Violation{Clause: "spin-after-shutdown", Case: -1, Key: "spin-after-shutdown",
 					Detail: fmt.Sprintf("after close(closed) the process used %d ms of CPU in 1 s (idle before: %d ms); goroutines found running: %v", o.rep.CPUAfterMs, o.rep.CPUBeforeMs, o.rep.Running), Replay: hist})
+			}
+			for kind, closed := range o.rep.PeersClosed {
+				if !closed {
+					res.Violate(lib.Violation{Clause: "connection-survives-shutdown", Case: -1, Key: "connection-survives-shutdown:" + kind,
+						Detail: fmt.Sprintf("2 s after close(closed) the socket of the %s peer is still open (per-connection goroutines left: %d, relay goroutines by creation site: %v)", kind, o.rep.PumpsLeft, o.rep.Left), Replay: hist})
+				}
 			}
 			if o.rep.PumpsLeft > 0 || o.rep.ClientsEnded < 3 {
 				res.Violate(lib.Violation{Clause: "connection-survives-shutdown", Case: -1, Key: "connection-survives-shutdown",
